@@ -23,7 +23,8 @@ func TestMain(m *testing.M) {
 		Rule: "rapid-generated operation histories (3..40 steps) over a pool of <= 8 live meshes: every step draws one or two pool members and one of ~45 public operations " +
 			"(Mesh methods, meshops transformers, repeat, primitives as fresh sources, the PLY/OBJ/glTF/STL writers); the result joins the pool, so repeated draws of one base give branching derivations. " +
 			"Oracle: a bit-exact snapshot (topology, indices, material ranges and pointers, attribute names, every value) of every live mesh is re-read through the accessors after every step. " +
-			"Non-trivial = the history derives from a mesh that already has another live derivation or is itself derived (>= 2 derivations sharing an ancestor); distinct by op-list hash.",
+			"Non-trivial = the history derives from a mesh that already has another live derivation or is itself derived (>= 2 derivations sharing an ancestor); distinct by op-list hash. " +
+			"Materials include textured ones (URIs with back-slashes and spaces; snapshot two pointer levels deep) and an MTL export step; sub-check large-history: 3..10 steps over a pool that starts with a recipe-built mesh of more than 65 536 vertices (every such history with a derivation from it is non-trivial by the same rule).",
 		Assumptions: []string{
 			"an operation that panics (unmet precondition, unsupported topology) is a no-op for this property; crashes are C02's business",
 			"the harness never mutates an array after handing it to polyform",
